@@ -1165,6 +1165,28 @@ func (c *FnCtx) selectStmt(x *ssa.Select) {
 		ts = append(ts, a)
 	}
 	c.tuples[x] = ts
+	// local channels (plain variables): "before send:<var> assert" holds before the select whatever case
+	// is chosen (the value to be sent is already computed); "after send:/recv:<var> set" takes effect
+	// only if that case is the chosen one
+	kk := 2
+	for i, st := range x.States {
+		n := chanVarName(st.Chan)
+		chosen := eq(idx, num(int64(i)))
+		if st.Dir == types.SendOnly {
+			if n != "" {
+				extra := map[string]TV{"p0": {T: c.v(st.Send), Ty: st.Send.Type()}}
+				c.pointHints("send:"+n, x, st.Pos, extra)
+				c.pointSetsCond("send:"+n, x, extra, chosen)
+			}
+			continue
+		}
+		val, vt := ts[kk], tup.At(kk).Type()
+		kk++
+		if n != "" {
+			extra := map[string]TV{"r0": {T: val, Ty: vt}, "ok": {T: ts[1], Ty: tBool}}
+			c.pointSetsCond("recv:"+n, x, extra, chosen)
+		}
+	}
 	// contracts of the receive cases, each conditional on the chosen index
 	type rc struct {
 		i    int
@@ -1273,7 +1295,24 @@ func chanVarName(ch ssa.Value) string {
 				return y.Name()
 			case *ssa.Alloc:
 				return y.Comment
+			case *ssa.FieldAddr:
+				// a channel held in a field of a named variable: "ctx.succ"
+				if b := chanVarName(y.X); b != "" {
+					if st, ok := y.X.Type().Underlying().(*types.Pointer); ok {
+						if s, ok := st.Elem().Underlying().(*types.Struct); ok {
+							return b + "." + s.Field(y.Field).Name()
+						}
+					}
+				}
 			}
+		}
+	case *ssa.Call:
+		// the channel a call returns, e.g. ctx.Done(): named "Done()"
+		if x.Call.IsInvoke() {
+			return x.Call.Method.Name() + "()"
+		}
+		if f := x.Call.StaticCallee(); f != nil {
+			return f.Name() + "()"
 		}
 	case *ssa.MakeChan:
 		if refs := x.Referrers(); refs != nil {
@@ -1320,6 +1359,24 @@ func (c *FnCtx) pointSets(key string, ins ssa.Instruction, extra map[string]TV) 
 		v, _ := c.tr(g.E.E, c.pointEnv(ins, extra))
 		n := c.freshComp(comp)
 		c.assume(eq(n, v))
+		c.set(comp, n)
+	}
+}
+
+// pointSetsCond: like pointSets, but the assignment happens only if cond holds.
+func (c *FnCtx) pointSetsCond(key string, ins ssa.Instruction, extra map[string]TV, cond Term) {
+	if c.spec == nil {
+		return
+	}
+	for _, g := range c.spec.Sets[key] {
+		comp, _, ok := c.localGhost(g.Name)
+		if !ok {
+			panic(unsupported("after ... set: unknown ghostvar " + g.Name))
+		}
+		v, _ := c.tr(g.E.E, c.pointEnv(ins, extra))
+		old := c.get(c.st, comp)
+		n := c.freshComp(comp)
+		c.assume(eq(n, ite(cond, v, old)))
 		c.set(comp, n)
 	}
 }
